@@ -6,6 +6,9 @@ import Driver.Ledger
 import Driver.MTProto
 import Driver.Train
 import Driver.Cli
+import Driver.BitW
+import Driver.FSEEnc
+import Driver.HufEnc
 
 def main (args : List String) : IO UInt32 := do
   match args with
@@ -17,4 +20,7 @@ def main (args : List String) : IO UInt32 := do
   | ["mtproto"] => Driver.MTProto.main; return 0
   | ["train"] => Driver.Train.main; return 0
   | ["cli"] => Driver.Cli.main; return 0
+  | ["bitw"] => Driver.BitW.main; return 0
+  | ["fseenc"] => Driver.FSEEnc.main; return 0
+  | ["hufenc"] => Driver.HufEnc.main; return 0
   | _ => IO.eprintln "usage: zvdriver <model>"; return 2
